@@ -392,7 +392,7 @@ class World:
             raise Hang("command did not return within %s s" % self.deadline_s)
 
         old = signal.signal(signal.SIGPROF, on_alarm)
-        signal.setitimer(signal.ITIMER_PROF, self.deadline_s)  # CPU time of this process
+        signal.setitimer(signal.ITIMER_PROF, self.deadline_s, 0.5)  # CPU time of this process; re-fires
         try:
             return fn()
         finally:
